@@ -21,6 +21,7 @@ from typing import Dict, List, Optional, Set, Tuple
 from ..cfg import cfg_of
 from ..dataflow import expr_leaves, flow_of, select_path
 from ..engine import Context, Reporter
+from ..fresh import fresh_copy_source
 from ..model import AnalysisError, ClassInfo, FuncInfo, dotted, norm_text, walk_no_nested
 from ..records import PARTICLE_FIELDS, Site, Tagger, discover_sites, name_tag
 from ..util import call_arg, calls_in, calls_in_node, conds_holding_at, is_none_test, split_cond, unparse
@@ -396,12 +397,12 @@ def bounds_helpers(ctx: Context) -> Tuple[FuncInfo, FuncInfo]:
         first = fi.params[0]
         # names that alias a copy of the first parameter (u = u.copy(); folded = u.copy(); np.array(u))
         copies = {first}
-        has_copy = any(isinstance(n, ast.Call) and ((isinstance(n.func, ast.Attribute) and n.func.attr == "copy") or dotted(n.func) in ("np.array", "np.copy", "numpy.array")) for n in walk_no_nested(fi.node))
+        has_copy = any(fresh_copy_source(lambda c_: ctx.res.external_name(fi, c_), n) is not None for n in walk_no_nested(fi.node))
         for n in walk_no_nested(fi.node):
             if isinstance(n, ast.Assign) and len(n.targets) == 1 and isinstance(n.targets[0], ast.Name):
                 v = n.value
-                if isinstance(v, ast.Call) and ((isinstance(v.func, ast.Attribute) and v.func.attr == "copy" and isinstance(v.func.value, ast.Name) and v.func.value.id in copies) or
-                                               (dotted(v.func) in ("np.array", "np.copy", "numpy.array") and v.args and isinstance(v.args[0], ast.Name) and v.args[0].id in copies)):
+                src_ = fresh_copy_source(lambda c_: ctx.res.external_name(fi, c_), v)
+                if isinstance(src_, ast.Name) and src_.id in copies:
                     copies.add(n.targets[0].id)
                 # views of a copy (same memory, other shape): cols = np.atleast_2d(u) / u.reshape(...)
                 elif isinstance(v, ast.Call) and has_copy and ((dotted(v.func) in ("np.atleast_2d", "np.atleast_1d", "np.asarray", "np.reshape", "np.ravel") and v.args and isinstance(v.args[0], ast.Name) and v.args[0].id in copies)
